@@ -254,6 +254,8 @@ class Gen(object):
             lo, hi = p.get("min"), p.get("max")
             out = [lo if lo is not None else 0, 1]
             out.append(hi if hi is not None else 2 ** 53 + 1)
+            if hi is None:
+                out.append(2 ** 60)          # 1.15e18: between 1e16 and 1e21, where number canonicalisation has a branch of its own
             if lo is None:
                 out.append(-1)
             return sorted(set(out), key=lambda x: (abs(x), x))
@@ -261,7 +263,7 @@ class Gen(object):
             lo, hi = p.get("min"), p.get("max")
             out = [0.5, 0.0, 1.5, 1]
             out += [float(lo)] if lo is not None else [-2.5]
-            out += [float(hi)] if hi is not None else [1e22, 5e-324]
+            out += [float(hi)] if hi is not None else [1e22, 5e-324, 2.5e16]
             return [x for i, x in enumerate(out) if x not in out[:i] and (lo is None or x >= lo) and (hi is None or x <= hi)]
         if k == "boolean":
             return [False, True]
